@@ -39,7 +39,7 @@ Disc == /\ R.e = "disc"
            THEN LET S == SeqSet(R.regs)
                     prior == IF R.ck >= 0 /\ R.ck \in DOMAIN seen THEN seen[R.ck] ELSE {} IN
                 /\ Cardinality(S) = Len(R.regs)                                   \* no duplicates in one answer
-                /\ \A s \in S : \E r \in live : r.seq = s /\ r.dl > now /\ (R.n >= 0 => r.n = R.n)
+                /\ (\A s \in S : \E r \in live : r.seq = s /\ r.dl > now /\ (R.n >= 0 => r.n = R.n)) = TRUE
                 /\ S \cap prior = {}                                               \* at most once per cookie chain
                 /\ (R.lim >= 0 => Len(R.regs) <= R.lim)
                 /\ seen' = (R.nck :> (prior \cup S)) @@ seen
